@@ -86,7 +86,11 @@ package swarm
 //@ noframe
 
 //@ func (s *Swarm) connectednessUnlocked
-//@ prop C12
+//@ prop C12 C06
+// completeness: a connection the loop moves past was closed or limited, and anything but Connected is reported only
+// after every connection has been examined - so an open direct connection anywhere in the list means Connected
+//@ loop 0 iteration ret(IsClosed, 0, 0) || c.stat.Limited
+//@ ensures result != network.Connected ==> idx0 == len(s.conns.m[p])
 //@ loop 0 invariant haveLimited ==> (exists i int :: 0 <= i && i < idx0 && s.conns.m[p][i].stat.Limited)
 //@ ensures result == network.Connected ==> exists i int :: 0 <= i && i < len(s.conns.m[p]) && !s.conns.m[p][i].stat.Limited
 //@ ensures result == network.Limited ==> exists i int :: 0 <= i && i < len(s.conns.m[p]) && s.conns.m[p][i].stat.Limited
